@@ -547,6 +547,42 @@ class Program:
             raise Unfoldable(f'call {fn}')
         if isinstance(expr, ast.Lambda):
             return ('lambda', ast.unparse(expr))
+        if isinstance(expr, (ast.DictComp, ast.ListComp, ast.SetComp)) and len(expr.generators) == 1 and not expr.generators[0].is_async:
+            # a comprehension over a foldable collection (reverse tables built from another class-level table)
+            g = expr.generators[0]
+            it = g.iter
+            if isinstance(it, ast.Call) and isinstance(it.func, ast.Attribute) and it.func.attr in ('items', 'keys', 'values') and not it.args:
+                base = ce(it.func.value)
+                if not isinstance(base, dict):
+                    raise Unfoldable('comprehension over a non-dict')
+                seq = list(base.items()) if it.func.attr == 'items' else list(base.keys()) if it.func.attr == 'keys' else list(base.values())
+            else:
+                seq = ce(it)
+                if isinstance(seq, dict):
+                    seq = list(seq.keys())
+            if not isinstance(seq, (list, tuple, set)) or len(seq) > 200:
+                raise Unfoldable('comprehension iterable')
+            out_items = []
+            for el in seq:
+                loc2 = dict(local or {})
+                if isinstance(g.target, ast.Name):
+                    loc2[g.target.id] = el
+                elif isinstance(g.target, (ast.Tuple, ast.List)) and all(isinstance(t, ast.Name) for t in g.target.elts) and \
+                        isinstance(el, (tuple, list)) and len(el) == len(g.target.elts):
+                    for t, v_ in zip(g.target.elts, el):
+                        loc2[t.id] = v_
+                else:
+                    raise Unfoldable('comprehension target')
+                ce2 = lambda e, _l=loc2: self.const_eval(e, module, cls, _l, depth + 1)
+                if g.ifs:
+                    raise Unfoldable('filtered comprehension')
+                if isinstance(expr, ast.DictComp):
+                    out_items.append((ce2(expr.key), ce2(expr.value)))
+                else:
+                    out_items.append(ce2(expr.elt))
+            if isinstance(expr, ast.DictComp):
+                return dict(out_items)
+            return set(out_items) if isinstance(expr, ast.SetComp) else list(out_items)
         if isinstance(expr, ast.Subscript):
             base = ce(expr.value)
             idx = ce(expr.slice)
